@@ -222,6 +222,7 @@ MUTANTS = [
     ('C19', 'revert-shared-protocols', ('revert', '1db5c34'), 'C19.l'),
     ('C19', 'revert-stale-carry', ('revert', '57da474'), 'C19.m'),
     ('C19', 'revert-idle-attrs', ('revert', '17d9ca4'), 'C19.b'),
+    ('C19', 'revert-create-keywords', ('revert', '9fd92bd'), 'C19.j'),
 ]
 
 # behaviour-preserving edits: the check of the property must stay silent
